@@ -420,6 +420,10 @@ func init() {
 			{"<% let it = groupBy(4, [1, 2, 3, 4, 5, 6, 7]) %><%= for (g) in it { %>[<%= for (x) in g { %><%= x %><% } %>]<% break %><% } %>|<%= for (g) in it { %>[<%= for (x) in g { %><%= x %><% } %>]<% } %>", "[12]|[34][56][7]"},
 			{"<% let it = until(5) %><%= for (a) in it { %><%= a %><%= for (b) in it { %><%= b %><% break %><% } %>,<% } %>", "01,23,4,"},
 			{"<% let it = between(0, 6) %><%= for (v) in it { %><% if (v == 3) { break } %><%= v %><% } %>|<%= for (v) in it { %><%= v %><% } %>", "12|45"},
+			// an exhausted iterator stays exhausted: a second full loop over it yields nothing
+			{"<% let it = groupBy(2, [1, 2, 3, 4, 5]) %><%= for (i, g) in it { %>[<%= i %>:<%= for (x) in g { %><%= x %><% } %>]<% } %>|<%= for (g) in it { %>again<% } %>|<%= for (g) in it { %>again<% } %>", "[0:123][1:45]||"},
+			{"<% let it = range(1, 3) %><%= for (v) in it { %><%= v %><% } %>|<%= for (v) in it { %>x<% } %>|<%= for (v) in it { %>x<% } %>", "123||"},
+			{"<% let it = until(2) %><%= for (v) in it { %><%= v %><% } %>|<%= for (v) in it { %>x<% } %><% let jt = between(1, 3) %><%= for (v) in jt { %><%= v %><% } %>|<%= for (v) in jt { %>x<% } %>", "01|2|"},
 		} {
 			c := RCase{Tmpl: t[0]}
 			o := runRender(c)
@@ -427,6 +431,28 @@ func init() {
 			e.Count("iterator-loop-control")
 			if o.Class != "OK" || o.Out != t[1] {
 				e.Violate("c19-seq", fmt.Sprintf("%s rendered %q (%s %s), want %q", t[0], o.Out, o.Class, firstLine(o.Msg), t[1]), map[string]interface{}{"tmpl": t[0], "observed": o})
+			}
+		}
+		// groupBy handed out directly: after the terminating nil every further Next is nil, in both implementations
+		for name, f := range map[string]func(int, interface{}) (iterators.Iterator, error){"iterators.GroupBy": iterators.GroupBy, "plush.GroupByHelper": func(n int, u interface{}) (iterators.Iterator, error) { return plush.GroupByHelper(n, u) }} {
+			for _, ln := range []int{0, 1, 5, 6} {
+				xs := make([]int, ln)
+				it, err := f(2, xs)
+				e.rep.Evaluations++
+				e.Count("groupBy-after-exhaustion")
+				if err != nil {
+					continue
+				}
+				n := 0
+				for it.Next() != nil && n < 50 {
+					n++
+				}
+				for k := 0; k < 4; k++ {
+					if v := it.Next(); v != nil {
+						e.Violate("c19-groupby", fmt.Sprintf("%s(2, slice of %d): Next call %d after the terminating nil yields %v", name, ln, k+1, v), map[string]int{"len": ln})
+						break
+					}
+				}
 			}
 		}
 		// the groups are a partition of the sequence groupBy was GIVEN: a caller that goes on appending to
